@@ -60,7 +60,7 @@ class Engine(ExprMixin, BuiltinMixin):
         self.functions_run = {}  # qualname -> describe()
         self.assumptions = []
         self.prune = True
-        self.prune_timeout_ms = 400
+        self.prune_timeout_ms = 150
         self._prune_cache = {}
         self.current_props = []
         self.stats = {"paths_pruned": 0, "feasibility_checks": 0}
@@ -94,7 +94,9 @@ class Engine(ExprMixin, BuiltinMixin):
             return self._prune_cache[key]
         self.stats["feasibility_checks"] += 1
         s = z3.Solver()
-        s.set("timeout", self.prune_timeout_ms)
+        # string-heavy path conditions are not worth a serial check here: infeasible paths only cost extra
+        # (trivially valid) obligations, which are discharged in parallel
+        s.set("timeout", 25 if getattr(st, "strpc", False) else self.prune_timeout_ms)
         for c in st.pc:
             s.add(c)
         r = s.check() != z3.unsat
@@ -187,12 +189,12 @@ class Engine(ExprMixin, BuiltinMixin):
         mfx = ModFrame(finfo.module)
         for name, d in zip(dparams, defaults):
             if name not in env:
-                env[name] = self.eval_const(d, mfx)
+                env[name] = self.eval_const(d, mfx, st)
         for p, d in zip(a.kwonlyargs, a.kw_defaults):
             if p.arg not in env:
                 if d is None:
                     return terr("missing keyword-only argument %s" % p.arg)
-                env[p.arg] = self.eval_const(d, mfx)
+                env[p.arg] = self.eval_const(d, mfx, st)
         missing = [p for p in params if p not in env]
         if missing:
             return terr("missing positional arguments %s" % missing)
